@@ -29,6 +29,9 @@ SUBJECTS = {
     "F33": "end an HTTP/2 stream in the same step that writes its last data",
     "F22": "report the client's close code",
     "F38": "enforce h2_max_header_list_size",
+    "F39": "answer 400 on its own stream to an HTTP/2 request without a usable path",
+    "F40": "treat a WebSocket handshake with non-ASCII header bytes as invalid",
+    "F41": "a lifespan failure followed by another application error",
     "F34": "a failed lifespan startup is only reported once",
     "F35": "a lifespan failure the application swallowed",
     "F36": "worker_serve returns when the lifespan app is still waiting",
